@@ -549,6 +549,8 @@ def channels(segs):
     ch = {}
     for o in obs_only(segs):
         t = o.split(' ')
+        if t[0] == 'WCALLS':
+            continue          # (how often the transport was asked is the writer policy's business, not an observable of the client)
         key = t[0] if t[0] in ('W', 'WRAW', 'RET', 'STALL', 'PANIC', 'BADSCRIPT', 'STATE') else t[0] + ' ' + t[1]
         if t[0] == 'END':
             key = 'ITEM ' + t[1]
